@@ -265,6 +265,13 @@ func PanicChain(stderr string) ([]PanicElem, bool) {
 			rest = l[len("\tpanic: "):]
 		}
 		e := PanicElem{}
+		if strings.HasSuffix(rest, " [recovered, repanicked]") {
+			// Go 1.23+ collapses `panic: X [recovered]` + `panic: X` (the
+			// same value panicked again after being recovered) into one line.
+			t := strings.TrimSuffix(rest, " [recovered, repanicked]")
+			chain = append(chain, PanicElem{Text: t, Recovered: true}, PanicElem{Text: t})
+			continue
+		}
 		if strings.HasSuffix(rest, " [recovered]") {
 			e.Recovered = true
 			rest = strings.TrimSuffix(rest, " [recovered]")
